@@ -6,6 +6,7 @@
    any padding width) and every number of leading indices. *)
 From Coq Require Import Permutation.
 From Verif Require Import Base C02 C17 C17_proofs.
+Local Open Scope Z_scope.
 
 (* node -> face: for every leading index v and every face f, the result is the reduction over the
    data at exactly the corners of f (c17_ref agg d v r = agg (map (fun x => v[x]) (corners r))) *)
@@ -95,3 +96,63 @@ Theorem C17_notlast_raises : forall dims dest,
   c17_dispatch dims dest = C17_ValueError.
 Proof. exact c17_notlast_raises. Qed.
 Print Assumptions C17_notlast_raises.
+
+(* the partitions, and the faces inside a partition, may be processed in ANY order: every
+   permutation of the (face, index row) gathers gives the same array *)
+Theorem C17_order_free : forall (A B : Type) (agg : list A -> B) (d : A) m t S gs (data : list A),
+  std_table m t -> c17_nodes_ok t (length data) ->
+  c17_is_argsort (n_nodes_per_face t) S ->
+  Permutation gs (c17_gathers_with S t) ->
+  c17_face_row_of_gathers agg gs t data = c17_face_row_of_gathers agg (c17_gathers_with S t) t data.
+Proof. exact @c17_order_free. Qed.
+Print Assumptions C17_order_free.
+
+(* frame: the grid's face_node / n_nodes_per_face tables come back untouched and a second call
+   returns the same result *)
+Theorem C17_frame : forall (A B : Type) (agg : list A -> B) st (data : list (list A)),
+  snd (c17_face_call agg st data) = st /\
+  fst (c17_face_call agg (snd (c17_face_call agg st data)) data) = fst (c17_face_call agg st data).
+Proof. exact @c17_frame. Qed.
+Print Assumptions C17_frame.
+
+(* defective variant: n_nodes_per_face sorted in place — sizes applied to the wrong faces *)
+Theorem C17_inplace_sort_refuted :
+  std_table 5 c17_wit_table /\ c17_nodes_ok c17_wit_table (length c17_wit_data1) /\
+  In (1, [0;2;3]) (c17_gathers_inplace_sort c17_wit_table) /\
+  nth_error c17_wit_table 1 = Some [0;2;3;4;FILL] /\
+  In (3, [1;0;7;FILL;FILL]) (c17_gathers_inplace_sort c17_wit_table) /\
+  c17_face_row_inplace_sort c17_zsum c17_wit_table c17_wit_data1 = None /\
+  c17_face_row c17_zsum c17_wit_table c17_wit_data1 = Some [Some 30; Some 90; Some 220; Some 80].
+Proof. exact c17_inplace_sort_refuted. Qed.
+Print Assumptions C17_inplace_sort_refuted.
+
+(* defective variant: the sort permutation applied instead of its inverse when storing *)
+Theorem C17_positional_refuted :
+  c17_face_row_positional c17_zsum c17_wit_table c17_wit_data1 = Some [Some 30; Some 80; Some 90; Some 220] /\
+  c17_face_row c17_zsum c17_wit_table c17_wit_data1 = Some [Some 30; Some 90; Some 220; Some 80].
+Proof. exact c17_positional_refuted. Qed.
+Print Assumptions C17_positional_refuted.
+
+(* dtype of the result as NumPy promotes (the table the harness compares with the implementation):
+   all/any -> bool; min/max -> source dtype; sum/prod -> int64 for bool/int32/int64, source for floats;
+   mean/std/var/median -> float64 for bool/ints, source for floats *)
+Theorem C17_dtype : forall a src,
+  (a = C17_all \/ a = C17_any -> c17_result_dtype a src = C17_bool) /\
+  (a = C17_max \/ a = C17_min -> c17_result_dtype a src = src) /\
+  (a = C17_sum \/ a = C17_prod ->
+     c17_result_dtype a src = (if c17_is_float src then src else C17_int64)) /\
+  (a = C17_mean \/ a = C17_std \/ a = C17_var \/ a = C17_median ->
+     c17_is_float (c17_result_dtype a src) = true /\
+     (c17_is_float src = true -> c17_result_dtype a src = src)) /\
+  (c17_is_float src = true -> a <> C17_all -> a <> C17_any -> c17_result_dtype a src = src).
+Proof. exact c17_dtype_table. Qed.
+Print Assumptions C17_dtype.
+
+(* node -> edge over ANY edge_node table, in the table's own order and orientation *)
+Theorem C17_edge_any_table : forall (A B : Type) (agg : list A -> B) (d : A) (en : list (Z * Z)) (data : list A),
+  Forall (fun e => 0 <= fst e < Z.of_nat (length data) /\ 0 <= snd e < Z.of_nat (length data)) en ->
+  exists res, c17_edge_row agg en data = Some res /\ length res = length en /\
+    forall e q, nth_error en e = Some q ->
+      nth_error res e = Some (agg [nth (Z.to_nat (fst q)) data d; nth (Z.to_nat (snd q)) data d]).
+Proof. exact @c17_edge_any_table. Qed.
+Print Assumptions C17_edge_any_table.
